@@ -58,6 +58,8 @@ class Engine:
         self.method_models = {}
         self.current_target = None
         self.str_to_int_hook = None
+        self.call_site_vacuity = True
+        self.site_stats = {}
         self.after_call = {}  # (caller qualname, callee name) -> ghost statement fn(c, frame, result)
         self.lazy_ext_kinds = set()  # external kinds whose methods only record their (lazily optional) arguments
         self.split_hooks = {}  # function qualname -> model of str.split inside that function
@@ -254,6 +256,8 @@ class Engine:
                 # a post-condition that is literally false at a call site would silently cut the caller's path (vacuity)
                 raise Undecided(f"contract of {short} yields `false` when used at a call site (line {line})")
             c.assume(post)
+            variant = f" with result {res!r}" if res is None or isinstance(res, (bool, int, str)) else ""
+            self.site_check(c, f"normal return of {short}{variant} (line {line})")
             return res
         cls, when, post = ct.raises[k - 1]
         exc = ExcVal(cls, ())
@@ -263,7 +267,20 @@ class Engine:
                 exc = r
             else:
                 c.assume(r)
+                self.site_check(c, f"{cls.__name__} out of {short} (line {line})", flag=False)
         raise PyExc(exc)
+
+    def site_check(self, c, site, flag=True):
+        """Vacuity guard (DESIGN 2.15): after assumptions that come from a contract, an invariant or a precondition the path must
+        still be satisfiable.  An inconsistent path is pruned (sound: it denotes no execution); a site that is inconsistent on
+        every path through it is reported, because everything after it would be proved vacuously."""
+        if not self.call_site_vacuity or c.dry:
+            return
+        st = self.site_stats.setdefault((c.fn_label, site, flag), [0, 0])
+        st[0] += 1
+        if c.solver.check() == z3.unsat:
+            raise PathEnd()
+        st[1] += 1
 
     def havoc_loc(self, c, m):
         if isinstance(m, tuple) and isinstance(m[0], Ref):
@@ -682,6 +699,7 @@ class Engine:
                 if parent is not None:
                     pframe = Frame(qual.rsplit(".<locals>.", 1)[0], mod, parent, None, None)
                 c.assume(ct.requires(c, a))
+                self.site_check(c, "function entry (case set-up and precondition)")
                 old = c.snapshot()
                 if ct.ghost_entry:
                     ct.ghost_entry(c, a)
@@ -727,6 +745,10 @@ class Engine:
             if not any(k != "(cut)" for k in exits) and not und and roots is None and not split_only:
                 rep["undecided"].append(f"{case_name}: no path reaches an exit (vacuous contract case)")
         rep["time_s"] = time.time() - t0
+        rep["sites"] = [(k_[0], k_[1], k_[2], v_[0], v_[1]) for k_, v_ in self.site_stats.items()]
+        self.site_stats = {}
+        if roots is None and not split_only:
+            rep["undecided"] += vacuous_sites(rep["sites"])
         self.fn_reports[key] = rep
         return rep
 
@@ -757,6 +779,18 @@ class Engine:
             res["goal"] = str(goal)[:600]
         self.results[("lemma", name, (), 0)] = res
         return res
+
+
+def vacuous_sites(sites):
+    """sites: (case label, site, flagged, attempts, consistent) records, possibly several per site; a flagged site that was never
+    consistent is vacuous."""
+    agg = {}
+    for (lab, site, flag, att, ok) in sites:
+        a_ = agg.setdefault((lab, site, flag), [0, 0])
+        a_[0] += att
+        a_[1] += ok
+    return [f"{lab.split('/')[-1]}: every path is inconsistent after the {site}: what follows it is proved vacuously"
+            for (lab, site, flag), (att, ok) in sorted(agg.items()) if flag and att > 0 and ok == 0]
 
 
 M_int_ok = z3.Function("int_ok", smt.S, smt.Bool)
